@@ -9,6 +9,7 @@ package guard
 
 import (
 	"fmt"
+	"os"
 	"sort"
 	"go/constant"
 	"go/token"
@@ -158,9 +159,164 @@ func (a Atom) matches(p Pred, truth bool) bool {
 }
 
 type Checker struct {
-	P   *prog.Program
-	Fn  *ssa.Function
-	Res *term.Resolver
+	P     *prog.Program
+	Fn    *ssa.Function
+	Res   *term.Resolver
+	Subst []string // when checking a helper: caller-side terms of the helper's parameters
+	Depth int      // helper inlining depth
+}
+
+// MaxHelperDepth bounds helper summarisation (quick 2 / thorough 4, set by the driver).
+var MaxHelperDepth = 2
+
+// parameter tokens "#i" (not the "#i" of a tuple extraction, which always follows ')')
+var reParam = regexp.MustCompile(`(^|[^)\w])#([0-9]+)(\.)?`)
+
+func substParams(s string, subst []string, unknown string) string {
+	return reParam.ReplaceAllStringFunc(s, func(m string) string {
+		sm := reParam.FindStringSubmatch(m)
+		var i int
+		fmt.Sscanf(sm[2], "%d", &i)
+		if i < len(subst) && subst[i] != "" {
+			t := subst[i]
+			if sm[3] == "." {
+				t = strings.TrimPrefix(t, "&") + "."
+			}
+			return sm[1] + t
+		}
+		if unknown == "" {
+			return m
+		}
+		return sm[1] + unknown + sm[2] + sm[3]
+	})
+}
+
+// pred: CondPred with parameter tokens rewritten to the caller's argument terms.
+func (c *Checker) pred(v ssa.Value) (Pred, bool, bool) {
+	p, pol, ok := CondPred(c.Res, v)
+	if ok && len(c.Subst) > 0 {
+		sub := func(s string) string { return substParams(s, c.Subst, "#callee") }
+		p.A, p.B = sub(p.A), sub(p.B)
+	}
+	return p, pol, ok
+}
+
+// helperCall recognises a condition that is decided by a module helper: a bool-returning call (want = the
+// boolean) or `call == nil` / `call != nil` on an error-returning call (want = nil-ness).
+func (c *Checker) helperCall(v ssa.Value) (call *ssa.Call, isErr bool, pol bool) {
+	v, pol = stripNot(v)
+	if cl, ok := v.(*ssa.Call); ok && isBool(cl) {
+		return cl, false, pol
+	}
+	if bo, ok := v.(*ssa.BinOp); ok && (bo.Op == token.EQL || bo.Op == token.NEQ) {
+		var other ssa.Value
+		var cl *ssa.Call
+		if x, ok := bo.X.(*ssa.Call); ok {
+			cl, other = x, bo.Y
+		} else if y, ok := bo.Y.(*ssa.Call); ok {
+			cl, other = y, bo.X
+		}
+		if cl != nil {
+			if k, ok := other.(*ssa.Const); ok && k.Value == nil && cl.Type().String() == "error" {
+				// value of (call == nil) is pol for EQL
+				if bo.Op == token.NEQ {
+					pol = !pol
+				}
+				return cl, true, pol
+			}
+		}
+	}
+	return nil, false, pol
+}
+
+// helperImplies: does the helper returning `want` (true/false, or nil/non-nil error) imply one of the atoms?
+func (c *Checker) helperImplies(call *ssa.Call, isErr bool, want bool, atoms []Atom) bool {
+	if c.Depth >= MaxHelperDepth {
+		return false
+	}
+	_, callees := term.CalleeName(c.P, &call.Call)
+	if len(callees) != 1 || len(callees[0].Blocks) == 0 {
+		return false
+	}
+	h := callees[0]
+	off := 0
+	if call.Call.IsInvoke() {
+		off = 1
+	}
+	subst := make([]string, len(h.Params))
+	for i, a := range call.Call.Args {
+		if i+off < len(subst) {
+			t := c.Res.Of(a).String()
+			if len(c.Subst) > 0 {
+				t = substParams(t, c.Subst, "")
+			}
+			subst[i+off] = t
+		}
+	}
+	hc := &Checker{P: c.P, Fn: h, Res: term.NewResolver(c.P, c.Res.Mods, h), Subst: subst, Depth: c.Depth + 1}
+	if os.Getenv("SAODEBUG") != "" {
+		fmt.Fprintf(os.Stderr, "helperImplies %s want=%v subst=%v atoms=%d first=%s\n", c.P.Name(h), want, subst, len(atoms), atoms[0].Desc)
+		for _, b := range h.Blocks {
+			if iff := cfgx.IfOf(b); iff != nil {
+				p, pol, ok := hc.pred(iff.Cond)
+				fmt.Fprintf(os.Stderr, "   b%d pred=%v pol=%v ok=%v\n", b.Index, p, pol, ok)
+			}
+		}
+	}
+	n := 0
+	for _, b := range h.Blocks {
+		ret, ok := b.Instrs[len(b.Instrs)-1].(*ssa.Return)
+		if !ok || len(ret.Results) == 0 {
+			continue
+		}
+		res := ret.Results[len(ret.Results)-1]
+		if !isErr {
+			res = ret.Results[0]
+		}
+		k, isC := res.(*ssa.Const)
+		if !isErr {
+			if !isC || k.Value == nil || k.Value.Kind() != constant.Bool {
+				// computed boolean result: helper == want means this value == want
+				n++
+				covered := false
+				if p, pol, ok := hc.pred(res); ok {
+					for _, a := range atoms {
+						if a.matches(p, pol == want) {
+							covered = true
+						}
+					}
+				}
+				if !covered {
+					if ok, _ := hc.MustPass(b, atoms); !ok {
+						return false
+					}
+				}
+				continue
+			}
+			if constant.BoolVal(k.Value) != want {
+				continue
+			}
+		} else {
+			isNil := isC && k.Value == nil
+			if want { // want nil error
+				if !isNil {
+					if isC {
+						continue
+					}
+					// a computed error: may be nil — must also be covered
+				}
+			} else {
+				if isNil {
+					continue
+				}
+			}
+		}
+		n++
+		if ok, _ := hc.MustPass(b, atoms); !ok {
+			return false
+		}
+	}
+	return n > 0
 }
 
 // directCut: edges on which one of the atoms holds by the branch condition itself.
@@ -178,7 +334,17 @@ func (c *Checker) directCut(atoms []Atom) map[cfgx.Edge]bool {
 		if iff == nil || len(b.Succs) != 2 {
 			continue
 		}
-		p, ppol, ok := CondPred(c.Res, iff.Cond)
+		// conditions decided by a module helper: summarise the helper (bounded depth)
+		if call, isErr, hpol := c.helperCall(iff.Cond); call != nil {
+			// true edge of the If: helper result == hpol (bool) / error is nil == hpol
+			if c.helperImplies(call, isErr, hpol, atoms) {
+				cut[cfgx.Edge{From: b, To: b.Succs[0]}] = true
+			}
+			if c.helperImplies(call, isErr, !hpol, atoms) {
+				cut[cfgx.Edge{From: b, To: b.Succs[1]}] = true
+			}
+		}
+		p, ppol, ok := c.pred(iff.Cond)
 		if !ok {
 			continue
 		}
@@ -486,7 +652,7 @@ func (c *Checker) search(target *ssa.BasicBlock, atoms []Atom) (bool, []*ssa.Bas
 					continue // infeasible: the tested value is the nil constant on this path
 				}
 				// equality with a constant: remembered per term
-				if p, ppol, okp := CondPred(c.Res, iff.Cond); okp && p.Kind == "eq" {
+				if p, ppol, okp := c.pred(iff.Cond); okp && p.Kind == "eq" {
 					t, k := p.A, p.B
 					if isConstTerm(t) && !isConstTerm(k) {
 						t, k = k, t
